@@ -66,7 +66,7 @@ def run_valid(spec):
 
 
 # ------------------------------------------------------------------------------------------------
-FAULTS = ["pins_do_not_fit", "wire_too_thick", "clad_too_thick", "nonpositive_dimension", "duct_not_smaller_than_pitch",
+FAULTS = ["pins_do_not_fit", "wire_too_thick", "wire_without_pitch", "clad_too_thick", "nonpositive_dimension", "duct_not_smaller_than_pitch",
           "unequal_outer_ducts", "inverted_axial_region", "overlapping_axial_regions", "missing_boundary_condition",
           "two_boundary_conditions", "unknown_coolant", "unknown_duct_material", "unknown_correlation",
           "power_wrong_item_count", "power_axial_gap", "power_not_core_length", "power_negative", "power_not_a_number", "odd_duct_ftf",
@@ -90,6 +90,10 @@ def inject(spec, fault, mag, pick):
         a["wire_diameter"] = (a["pin_pitch"] - a["pin_diameter"]) * (1 + eps)
         if a["wire_pitch"] == 0:
             a["wire_pitch"] = 20 * a["pin_diameter"]
+    elif fault == "wire_without_pitch":
+        if not a["wire_diameter"] > 0:
+            return None
+        a["wire_pitch"] = 0.0
     elif fault == "clad_too_thick":
         a["clad_thickness"] = 0.5 * a["pin_diameter"] * (1 + eps)
     elif fault == "nonpositive_dimension":
